@@ -266,6 +266,13 @@ func topFrame(stack string) string {
 
 func genCase(t *rapid.T) Case {
 	rs := route.ConflictFree(route.GenOverlappingRuleSet(t, route.GenOpts{StarStarOnlyLast: true}, 6))
+	for i := range rs {
+		// a rule may spell the method's implicit route out (legal, the same mapping as the implicit binding):
+		// the rule's other bindings must be bound all the same, wherever in the rule it stands
+		if rapid.IntRange(0, 7).Draw(t, "spellImplicit") == 0 {
+			rs[i].Bindings = append([]route.Binding{{Verb: "POST", Tmpl: route.MethodName(i), Body: "*"}}, rs[i].Bindings...)
+		}
+	}
 	c := Case{Rules: rs}
 	if len(rs) == 0 {
 		return c
